@@ -188,6 +188,44 @@ static json op_xml(const json& req)
     return out;
 }
 
+// self-test of the C08 invariant checker: corrupt an accepted document in a known way, report what invcheck says
+static json op_invselftest(const json& req)
+{
+    json out;
+    std::string buf = req["buf"];
+    int k = req.value("corruption", 0);
+    auto doc = std::make_unique<Document>();
+    auto doc2 = std::make_unique<Document>();
+    parse_XML_buffer(buf.c_str(), doc.get(), true);
+    parse_XML_buffer(buf.c_str(), doc2.get(), true);
+    auto& t = doc->get_templates().front();
+    auto& other = doc2->get_templates().front();
+    switch (k) {
+    case 0: break;                                             // control: untouched
+    case 1: t.edges.front().src = &other.locations.front(); break;  // end point in another template/document
+    case 2: t.edges.front().dst = nullptr; break;               // no target at all
+    case 3: t.edges.front().srcb = &t.branchpoints.front(); break;  // two sources
+    case 4: t.locations.back().nr = 7; break;                   // numbering not dense
+    case 5: t.edges.back().nr = 0; break;
+    case 6: t.init = symbol_t(); break;                         // accepted template without init
+    case 7: t.init = other.locations.front().uid; break;        // init of another template
+    case 8: doc->get_processes().front().mapping.clear(); break;  // bound parameter without argument
+    case 9: doc->get_processes().front().unbound = 1; break;   // unbound parameter carrying a mapping
+    case 10: {                                                  // symbol whose user data is not the object
+        auto& g = doc->get_globals().variables;
+        auto it = g.end();
+        --it;
+        auto it2 = it;
+        --it2;
+        std::swap(it->uid, it2->uid);
+        break;
+    }
+    case 11: t.locations.front().uid = t.locations.back().uid; break;
+    }
+    out["inv"] = invcheck(*doc, true);
+    return out;
+}
+
 // batch: {"tpl": "....\u0001....\u0001...", "fills": [[a,b],...]} or {"bufs":[...]}
 static json op_xmls(const json& req)
 {
@@ -594,6 +632,8 @@ static json dispatch(const json& req)
         return op_xta(req);
     if (op == "xmls")
         return op_xmls(req);
+    if (op == "invselftest")
+        return op_invselftest(req);
     if (op == "exprs")
         return op_exprs(req);
     if (op == "queries")
